@@ -25,8 +25,9 @@ import xapi
 
 LEAN_DIR = os.environ.get('C19M_LEAN_DIR', core.LEAN_DIR)          # development only: a private copy of lean/
 JGEN_DIR = os.path.join(LEAN_DIR, 'Xrl', 'JGen')
-PROPS = 'Xrl.Props.C19'
-PROPS_FILE = os.path.join(LEAN_DIR, 'Xrl', 'Props', 'C19.lean')
+PROP_MODULES = ['Xrl.Props.C19', 'Xrl.Props.C19b']          # both in namespace Xrl.C19; C19b imports C19
+PROP_FILES = [os.path.join(LEAN_DIR, *m.split('.')) + '.lean' for m in PROP_MODULES]
+PROPS = PROP_MODULES[-1]
 NS = 'Xrl.C19'
 TIE_REL = 1e-11        # Float model (glibc libm through Lean) vs JVM (intrinsics / StrictMath): same tables bit for bit, a few ulp per libm call
 RAYL = ('FF_Rayl', 'DCS_Rayl', 'DCSb_Rayl', 'DCSP_Rayl', 'DCSPb_Rayl')
@@ -37,7 +38,7 @@ TRUSTED = [
 ]
 
 def _lean_sources():
-    out = [os.path.join(LEAN_DIR, 'JDriver.lean'), PROPS_FILE]
+    out = [os.path.join(LEAN_DIR, 'JDriver.lean')] + PROP_FILES
     for sub in ('JCore', 'JGen'):
         d = os.path.join(LEAN_DIR, 'Xrl', sub)
         if os.path.isdir(d): out += sorted(os.path.join(d, f) for f in os.listdir(d) if f.endswith('.lean'))
@@ -64,7 +65,7 @@ def _print_axioms(ctx, names):
     res = {}; txt = ''
     for i in range(0, len(names), 400):
         path = ctx.sc.path('AuditJ%d.lean' % i)
-        open(path, 'w').write('import %s\n' % PROPS + ''.join('#print axioms %s\n' % n for n in names[i:i + 400]))
+        open(path, 'w').write(''.join('import %s\n' % m for m in PROP_MODULES) + ''.join('#print axioms %s\n' % n for n in names[i:i + 400]))
         p = subprocess.run(['lake', 'env', 'lean', path], cwd=LEAN_DIR, capture_output=True, text=True)
         t = p.stdout + p.stderr; txt += t
         for m in re.finditer(r"^'(.+?)' depends on axioms: \[([^\]]*)\]|^'(.+?)' does not depend on any axioms", t, re.M):
@@ -73,17 +74,18 @@ def _print_axioms(ctx, names):
     return res, txt
 
 def _failing(build_log):
-    rel = os.path.relpath(PROPS_FILE, LEAN_DIR)
-    lines = [int(x) for m in re.findall(re.escape(rel) + r':(\d+):\d+: error|error: ' + re.escape(rel) + r':(\d+)', build_log) for x in m if x]
-    try: src = open(PROPS_FILE).read().splitlines()
-    except OSError: return []
     names = []
-    for ln in lines:
-        for i in range(min(ln, len(src)) - 1, -1, -1):
-            m = re.match(r'\s*(?:theorem|def|example|lemma)\s+([\w\.\']+)', src[i])
-            if m:
-                if m.group(1) not in names: names.append(m.group(1))
-                break
+    for pf in PROP_FILES:
+        rel = os.path.relpath(pf, LEAN_DIR)
+        lines = [int(x) for m in re.findall(re.escape(rel) + r':(\d+):\d+: error|error: ' + re.escape(rel) + r':(\d+)', build_log) for x in m if x]
+        try: src = open(pf).read().splitlines()
+        except OSError: continue
+        for ln in lines:
+            for i in range(min(ln, len(src)) - 1, -1, -1):
+                m = re.match(r'\s*(?:theorem|def|example|lemma)\s+([\w\.\']+)', src[i])
+                if m:
+                    if m.group(1) not in names: names.append(m.group(1))
+                    break
     return names
 
 # ------------------------------------------------------------------------------------------ data path (text level)
@@ -216,18 +218,18 @@ def java_model_step(ctx, rep, build=None):
         ctx.tick('j2lean', t); t = time.time()
         ok_model, log_model = _lake(['Xrl.JGen.Dispatch', 'Xrl.Gen.Load', 'Xrl.Core.Dump'])
         ctx.tick('lake_jgen', t); t = time.time()
-        ok_props, log_props = _lake([PROPS])
+        ok_props, log_props = _lake(PROP_MODULES)
         ctx.tick('lake_c19', t)
     cov['java_methods_translated'] = len(meta['translated']); cov['java_methods_unsupported'] = len(meta['unsupported'])
     cov['java_methods_outside_subset'] = len(meta['not_candidates'])
     if not ok_model: rep['tie_broken'].append('the generated Java model does not compile: ' + xdrv.first_errors(log_model, 4))
-    theorems = core.theorems_of(PROPS_FILE, NS) if os.path.exists(PROPS_FILE) else []
+    theorems = [t for pf in PROP_FILES if os.path.exists(pf) for t in core.theorems_of(pf, NS)]
     cov['java_theorems'] = len(theorems)
-    twins = sorted({re.sub(r'_(partial|KA)$', '', m.group(2)) for n in theorems for m in [re.match(re.escape(NS) + r'\.java_eq(w?)_c_(\w+)$', n)] if m and not m.group(2).endswith('_full_fails')})
+    twins = sorted({re.sub(r'_(partial|KA)$', '', m.group(2)) for n in theorems for m in [re.match(re.escape(NS) + r'\.java_eq([wi]?)_c_(\w+)$', n)] if m and not m.group(2).endswith('_full_fails')})
     cov['java_methods_with_theorem'] = len(twins); cov['java_methods_with_theorem_list'] = twins
     if not ok_props:
         failing = _failing(log_props)
-        rep['proof_broken'] += [NS + '.' + f for f in failing] or ['(module %s does not build)' % PROPS]
+        rep['proof_broken'] += [NS + '.' + f for f in failing] or ['(modules %s do not build)' % ', '.join(PROP_MODULES)]
         rep['proof_log'] = (rep.get('proof_log', '') + '\n' + xdrv.first_errors(log_props, 10)).strip()
         cov['java_theorems_discharged'] = 0
     # audit
